@@ -27,12 +27,47 @@ int main(int argc, char** argv)
 		std::string t = unhex(argv[2]); String path = "/tmp/vf_c05_replay.json";
 		{ FILE* f = fopen(*path, "wb"); fwrite(t.data(), 1, t.size(), f); fclose(f); }
 		Var fromFile = Json::read(path), fromText = Json::decode(t.c_str()); remove(*path);
-		if (!(fromFile == fromText) || fromFile.ok() != fromText.ok()) { printf("REPRODUCED Json::read of a %d-byte file differs from Json::decode of the same text\n", (int)t.size()); return 1; }
+		if (fromFile.ok() != fromText.ok() || (fromFile.ok() && !(fromFile == fromText))) { printf("REPRODUCED Json::read of a %d-byte file differs from Json::decode of the same text\n", (int)t.size()); return 1; }
 		printf("OK %s\n", fromFile.ok() ? "value" : "invalid"); return 0;
 	}
 	if (cmd == "intbuf") {            // an 11-character int written when the output string is exactly at capacity (ASan sees a write past it)
 		for (int pre = 0; pre < 2300; pre++) { Var v = Var::ARRAY; String s; for (int i = 0; i < pre; i++) s << 'x'; v << s << (-2147483647 - 1);
 			String t = Json::encode(v); Var back = Json::decode(t); if (!(back == v)) { printf("REPRODUCED round trip with a %d-character prefix\n", pre); return 1; } }
+		printf("OK\n"); return 0;
+	}
+	if (cmd == "battery") {            // small-scope search over what the C05/C06 units verify, on the real encoder/decoder
+		// every byte in string values and keys, round trip in both modes
+		for (int c = 1; c < 256; c++) for (int key = 0; key < 2; key++) {
+			String t; t << 'a' << (char)c << 'b'; Var v; if (key) v[t] = 1; else v = t;
+			for (int mode = 0; mode < 2; mode++) { Var back = Json::decode(Json::encode(v, mode ? Json::PRETTY : Json::NONE)); if (!(back == v)) { printf("REPRODUCED byte %d in a %s does not survive Json::encode/decode\n", c, key ? "key" : "string value"); return 1; } }
+		}
+		// member names of every length 0..40 (inline and heap Strings), nested
+		for (int n = 1; n <= 40; n++) { std::string k; for (int i = 0; i < n; i++) k.push_back(char('a' + i % 26));
+			std::string doc = "{\"" + k + "\":{\"" + k + "x\":[1,{\"" + k + "\":2}]},\"z\":3}"; Var v = Json::decode(doc.c_str());
+			if (!v.ok() || !v.has(k.c_str()) || !v[k.c_str()].has((k + "x").c_str()) || !(v[k.c_str()][(k + "x").c_str()][1][k.c_str()] == Var(2)) || !(v["z"] == Var(3))) { printf("REPRODUCED member name of %d characters is not the key of its value after Json::decode\n", n); return 1; } }
+		// integers around every decimal-length and 32-bit boundary decode to their value
+		{ const char* nums[] = { "0", "-0", "7", "-7", "999999999", "-999999999", "1000000000", "-1000000000", "2147483647", "-2147483647", "-2147483648", "2147483648", "-2147483649", "-3000000000", "3000000000",
+		    "9999999999", "-9999999999", "10000000000", "-10000000000", "123456789012", "-123456789012" };
+		  for (unsigned i = 0; i < sizeof(nums) / sizeof(nums[0]); i++) { std::string d = std::string("[") + nums[i] + "]"; Var v = Json::decode(d.c_str()); double want = strtod(nums[i], 0);
+		    if (!v.ok() || v.length() != 1 || (double)v[0] != want) { printf("REPRODUCED Json::decode(\"%s\") gives %.17g, not %.17g\n", d.c_str(), v.ok() && v.length() == 1 ? (double)v[0] : 0.0, want); return 1; } } }
+		// int / boundary encodings with the output buffer at every fill level
+		for (int pre = 0; pre < 1100; pre += 1) { Var v = Var::ARRAY; String s2; for (int i = 0; i < pre; i++) s2 << 'x'; v << s2 << (-2147483647 - 1) << 2147483647 << 0.1 << 1e300 << -1.5e-30f << -1.2345678901234567e-300 << -2.2250738585072014e-308 << -1.7976931348623157e+308;
+			Var back = Json::decode(Json::encode(v)); if (!back.ok() || back.length() != v.length() || !(back[1] == v[1]) || !(back[2] == v[2])) { printf("REPRODUCED number round trip with a %d-character prefix\n", pre); return 1; } }
+		// prefix rejection and chunk independence on documents with nesting, strings with brackets and escapes, comments
+		{ const char* docs[] = { "[1,[2,{\"a]\":\"}\\\"]\"}],\"x\"]", "{\"k\":[true,null,{\"q\":-1.5e3}],\"s\":\"\\u00e9\\n/\"}", "\"a string ] with } brackets\"", "[[[[[]]]],{},\"\"]", "{\"a/b\":[1,2] /*c*/ ,\"c\":\"//\"}" };
+		  for (unsigned d = 0; d < sizeof(docs) / sizeof(docs[0]); d++) { std::string doc = docs[d]; Var whole = Json::decode(doc.c_str());
+			if (!whole.ok()) { printf("REPRODUCED valid document %u rejected\n", d); return 1; }
+			for (size_t cut = 0; cut < doc.size(); cut++) { Var v = Json::decode(doc.substr(0, cut).c_str()); if (v.ok()) { printf("REPRODUCED prefix of %d characters of document %u accepted\n", (int)cut, d); return 1; }
+				XdlParser parser; parser.parse(doc.substr(0, cut).c_str()); parser.parse(doc.substr(cut).c_str()); parser.parse(" "); Var w = parser.value();
+				if (!(w == whole) || !w.ok()) { printf("REPRODUCED feeding document %u in two chunks cut at %d differs from feeding it whole\n", d, (int)cut); return 1; } } } }
+		// the JSON two-character escapes
+		{ Var v = Json::decode("[\"\\\" \\\\ \\/ \\b \\f \\n \\r \\t\"]"); if (!v.ok() || v.length() != 1 || std::string(*v[0].toString()) != "\" \\ / \b \f \n \r \t") { printf("REPRODUCED JSON escapes do not decode to their characters\n"); return 1; } }
+		// files: every size 0..8 with and without BOM
+		{ const char* texts[] = { "", "7", "[]", "[1]", "\"ab\"", "[1,2]", "{\"a\":1}", "\"\xC2\xBFx\"", "[\"\xC2\xBB\"]", "\"\xEF\xBB\"" };
+		  for (unsigned i = 0; i < sizeof(texts) / sizeof(texts[0]); i++) for (int bom = 0; bom < 2; bom++) { std::string t = std::string(bom ? "\xEF\xBB\xBF" : "") + texts[i]; String path = "/tmp/vf_c05_battery.json";
+			{ FILE* f = fopen(*path, "wb"); fwrite(t.data(), 1, t.size(), f); fclose(f); }
+			Var a = Json::read(path), b = Json::decode(texts[i]); remove(*path);
+			if (a.ok() != b.ok() || (a.ok() && !(a == b))) {   /* (an invalid Var equals nothing, not even itself) */ printf("REPRODUCED Json::read of the %d-byte file '%s' (BOM %d) differs from decoding the text\n", (int)t.size(), texts[i], bom); return 1; } } }
 		printf("OK\n"); return 0;
 	}
 	return 2;
